@@ -1,5 +1,6 @@
 import Dashu.Proofs.Int.Repr
 import Dashu.Proofs.Int.Ops
+import Dashu.Proofs.Int.Pow
 /-
   C01 — Integer ring arithmetic is exact for every operand size and sign.
 
@@ -293,6 +294,84 @@ theorem u_cubic_exact (W : Nat) (hW : 1 ≤ W) (a : TRepr) (ha : a.Canon W) :
     (a.mul W (a.sqr W)).value W = a.value W * a.value W * a.value W := by
   have hs := TRepr.sqr_spec W hW a ha
   rw [(TRepr.mul_spec W hW a _ ha hs.2).1, hs.1, Nat.mul_assoc]
+
+-- ====================================================================== pow
+
+/-- `math::max_exp_in_word(base)` (`base > 2`): returns `(k, base^k)` with `k ≥ 1` and `base^k` a word, so
+    the `base.pow(exp)` calls for `exp < k` in `pow_word_base` cannot overflow -/
+theorem max_exp_in_word_exact (W base : Nat) (hb : 2 < base) (hlt : base < 2 ^ W) :
+    (maxExpInWord W base).2 = base ^ (maxExpInWord W base).1 ∧ 1 ≤ (maxExpInWord W base).1 ∧
+    (maxExpInWord W base).2 < 2 ^ W :=
+  maxExpInWord_spec W base hb hlt
+
+/-- the left-to-right binary loop of `pow_word_base` / `pow_dword_base` / `pow_large_base`, for any carrier
+    whose `mul`/`sqr` are exact: started on `b²` at bit `bit_len(exp) − 2` it returns `b^exp` -/
+theorem pow_loop_exact {α : Type} (v : α → Nat) (Inv : α → Prop) (mulBase sqr : α → α) (b : Nat)
+    (hm : ∀ r, Inv r → v (mulBase r) = v r * b ∧ Inv (mulBase r))
+    (hs : ∀ r, Inv r → v (sqr r) = v r * v r ∧ Inv (sqr r)) (exp : Nat) (hexp : 2 ≤ exp)
+    (init : α) (hi : Inv init) (hv : v init = b * b) :
+    v (powLoop mulBase sqr exp (bitLen exp - 2) init) = b ^ exp ∧
+    Inv (powLoop mulBase sqr exp (bitLen exp - 2) init) :=
+  powLoop_start v Inv mulBase sqr b hm hs exp hexp init hi hv
+
+/-- `pow_word_base` (bases 0, 1, 2, powers of two, word lifting through `max_exp_in_word`, binary loop) -/
+theorem pow_word_base_exact (W base exp : Nat) (hb : base < 2 ^ W) (hexp : exp ≠ 0) :
+    powWordBase W base exp = base ^ exp :=
+  powWordBase_spec W base exp hb hexp
+
+theorem pow_dword_base_exact (base exp : Nat) (hexp : 2 ≤ exp) : powDwordBase base exp = base ^ exp :=
+  powDwordBase_spec base exp hexp
+
+theorem pow_large_base_exact (W : Nat) (hW : 1 ≤ W) (base : List Nat) (exp : Nat)
+    (hb : (TRepr.large base).Canon W) (hexp : 2 ≤ exp) :
+    (powLargeBase W base exp).value W = val W base ^ exp ∧ (powLargeBase W base exp).Canon W :=
+  powLargeBase_spec W hW base exp hb hexp
+
+/-- `TypedReprRef::pow` (shortcuts 0, 1, 2 and the three base classes) -/
+theorem repr_pow_exact (W : Nat) (hW : 1 ≤ W) (a : TRepr) (exp : Nat) (ha : a.Canon W) :
+    (a.pow W exp).value W = a.value W ^ exp ∧ (a.pow W exp).Canon W :=
+  TRepr.pow_spec W hW a exp ha
+
+/-- `trailing_zeros`: `2^tz(n)` divides `n` exactly (the factor removed by `UBig::pow`) -/
+theorem trailing_zeros_exact (n : Nat) : n / 2 ^ trailingZeros n * 2 ^ trailingZeros n = n :=
+  trailingZeros_spec n
+
+/-- **UBig::pow** over the model (factor-2 removal, then `TypedReprRef::pow`, then shift back): `base^exp`,
+    canonical, for every exponent.  The real code computes `exp * shift` in `usize`; it follows this model
+    exactly when that product fits (`u_pow_checked_exact`). -/
+theorem u_pow_exact (W : Nat) (hW : 1 ≤ W) (a : TRepr) (exp : Nat) (ha : a.Canon W) :
+    (ubigPow W a exp).value W = a.value W ^ exp ∧ (ubigPow W a exp).Canon W :=
+  ubigPow_spec W hW a exp ha
+
+/-- **IBig::pow**: exact, canonical, never "−0" -/
+theorem i_pow_exact (W : Nat) (hW : 1 ≤ W) (a : SRepr) (exp : Nat) (ha : a.WF W) :
+    (ibigPow W a exp).value W = a.value W ^ exp ∧ (ibigPow W a exp).WF W :=
+  ibigPow_spec W hW a exp ha
+
+/-- sign rule of `IBig::pow`: negative iff the base is negative and the exponent is odd -/
+theorem i_pow_sign (W : Nat) (hW : 1 ≤ W) (a : SRepr) (exp : Nat) (ha : a.WF W) :
+    (ibigPow W a exp).value W < 0 ↔ (a.value W < 0 ∧ exp % 2 = 1) :=
+  ibigPow_neg_iff W hW a exp ha
+
+/-- what the property requires of `UBig::pow` with a `usize` exponent, as the driver evaluates it: the
+    exact power, except that when `exp * shift ≥ 2^64` the result has more than `2^64` bits (second clause)
+    and the documented allocation panic is required.
+    `u_pow_full` (the real code does this for *every* input) does NOT hold on the pinned tree: on the
+    `powShiftOverflows` class the code overflows `exp * shift` instead (witness below; finding
+    corpus/C01/pow_shift_overflow.case, proposed_fixes/c01-pow-shift-overflow.diff). -/
+theorem u_pow_checked_exact (W : Nat) (hW : 1 ≤ W) (a : TRepr) (exp : Nat) (ha : a.Canon W) :
+    (powShiftOverflows (a.value W) exp = false →
+      ∃ r, ubigPowChecked W a exp = .ok r ∧ r.value W = a.value W ^ exp ∧ r.Canon W) ∧
+    (powShiftOverflows (a.value W) exp = true →
+      ubigPowChecked W a exp = .error .allocTooMuch ∧ 2 ^ (2 ^ 64) ≤ a.value W ^ exp) := by
+  constructor
+  · intro h
+    exact ⟨ubigPow W a exp, by simp [ubigPowChecked, h], ubigPow_spec W hW a exp ha⟩
+  · intro h
+    exact ⟨by simp [ubigPowChecked, h], powShiftOverflows_huge _ _ h⟩
+
+/-- the excluded class is not empty: `4.pow(2^63)` -/
+theorem pow_shift_overflow_witness : powShiftOverflows 4 (2 ^ 63) = true := powShiftOverflows_witness
 
 -- non-vacuity: canonical heap operands exist, reach the borrow/shrink and sign paths
 example : (TRepr.large [0, 0, 1]).Canon 64 ∧ (TRepr.large [1, 0, 1]).Canon 64 := by
